@@ -369,6 +369,46 @@ def _run_dft(cfg):
             o.ncalls = 1         # a plan exists: not a "fresh" first call
             for k in sorted(few):
                 _call(acc, o, A[k], B[k], tol, sym, '%s input#%d' % (ctx0, k), 'oop')
+            # ... and cleared again ("Delete the FFTW plan of this transform"): the operator has
+            # to plan afresh and return the same values; a second clear is a documented no-op
+            try:
+                o.op.clear_fftw_plan()
+                o.op.clear_fftw_plan()
+            except Exception as e:
+                acc.add(o.site, 'raises:' + type(e).__name__,
+                        'clear_fftw_plan() %s: %s' % (ctx0, _exc(e)))
+                continue
+            o.note = '(after init_fftw_plan, calls, clear_fftw_plan)'
+            o.ncalls = 0
+            for k in sorted(few):
+                _call(acc, o, A[k], B[k], tol, sym, '%s input#%d' % (ctx0, k),
+                      'ip' if k == 1 else 'oop')
+    # derived objects: inverse.inverse is the forward transform again ("Inverse Fourier
+    # transform" of the inverse), and .inverse requested a second time, after the calls above,
+    # is the same operator as the first one (both built on odl's default back-end)
+    derived = []
+    try:
+        ii = inv.op.inverse
+        if not isinstance(ii, DiscreteFourierTransform) or ii.domain != sp:
+            acc.add(inv.site, 'derived_operator_has_other_type_or_spaces',
+                    '%s: .inverse of the inverse is %r' % (ctx0, ii))
+        else:
+            derived.append((Op(ii, _dft_site('DiscreteFourierTransform', ii.impl, dt, hc, ii.sign,
+                                             shape, axes), note='(via inverse.inverse)'),
+                            X, Y, 'matrix_differs'))
+    except Exception as e:
+        acc.add(inv.site, 'raises:' + type(e).__name__, '.inverse %s: %s' % (ctx0, _exc(e)))
+    if pinv is not None:
+        try:
+            p2 = fwd.op.inverse
+            derived.append((Op(p2, pinv.site, note='(via .inverse, requested again)'),
+                            Y, X, 'inverse_does_not_recover_input'))
+        except Exception as e:
+            acc.add(fwd.site, 'raises:' + type(e).__name__, '.inverse %s: %s' % (ctx0, _exc(e)))
+    for o, A, B, sym in derived:
+        for k in sorted(few):
+            _call(acc, o, A[k], B[k], tol, sym, '%s input#%d' % (ctx0, k),
+                  'ip' if k == 1 else 'oop', kw if o.op.impl == 'pyfftw' else None)
     par = ''.join('o' if shape[a] % 2 else 'e' for a in axes)
     return acc.result('dft:%s:%s:%s:%s:%s:%s' % (impl, 'r' if _is_real(dt) else 'c', int(hc), sign,
                                                  par, cfg.get('effort', 'd')))
@@ -507,10 +547,133 @@ def _run_ft(cfg):
             if z is not None and np.all(np.isfinite(z)):
                 _call(acc, fwd, z, X[k], tol, 'forward_of_inverse_differs',
                       '%s range unit vector %d' % (ctx0, k), 'oop')
+    nb = len(X)
+    few = sorted(set([0, 1, nb // 2, nb - 1]))
+    # derived objects (they share the temporaries of ft): "Inverse of the inverse, the forward
+    # FT", and .inverse requested a second time after the calls above
+    derived = []
+    try:
+        ii = inv.op.inverse
+        if not isinstance(ii, FourierTransform) or ii.domain != sp or ii.range != ft.range:
+            acc.add(isite, 'derived_operator_has_other_type_or_spaces',
+                    '%s: .inverse of the inverse is %r' % (ctx0, ii))
+        else:
+            derived.append((Op(ii, fsite, note='(ft.inverse.inverse)'), X, Y,
+                            'differs_from_documented_formula'))
+        derived.append((Op(ft.inverse, isite, note='(ft.inverse, requested again)'), Y, X,
+                        'inverse_does_not_recover_input'))
+    except Exception as e:
+        acc.add(fsite, 'raises:' + type(e).__name__, '.inverse %s: %s' % (ctx0, _exc(e)))
+    for o, A, B, sym in derived:
+        for k in few:
+            _call(acc, o, A[k], B[k], tol, sym, '%s input#%d' % (ctx0, k),
+                  'ip' if k == 1 else 'oop')
+    if impl == 'pyfftw':
+        # pre-planned operators ("Initialize the FFTW plan for this transform for later use";
+        # the plan is laid out on the temporaries if there are any), then the plan deleted
+        # again: the values must be those of the unplanned operator.  Once on the operators
+        # that have been called above, once on fresh ones.
+        try:
+            sp2, ft2 = _ft_build(cfg)
+            fresh = [(Op(ft2, fsite), X, Y, 'differs_from_documented_formula'),
+                     (Op(ft2.inverse, isite), Y, X, 'inverse_does_not_recover_input')]
+        except Exception as e:
+            acc.add(fsite, 'raises:' + type(e).__name__, 'constructor %s: %s' % (ctx0, _exc(e)))
+            fresh = []
+        used = [(fwd, X, Y, 'differs_from_documented_formula'),
+                (inv, Y, X, 'inverse_does_not_recover_input')]
+        for hist, group in (('fresh operator', fresh), ('used operator', used)):
+            for o, A, B, sym in group:
+                for step in ('init_fftw_plan', 'clear_fftw_plan', 'clear_fftw_plan'):
+                    try:
+                        getattr(o.op, step)()
+                    except Exception as e:
+                        acc.add(o.site, 'raises:' + type(e).__name__,
+                                '%s() on a %s %s: %s' % (step, hist, ctx0, _exc(e)))
+                        break
+                    o.note = '(%s, after %s)' % (hist, step)
+                    o.ncalls = max(o.ncalls, 1)
+                    for k in few:
+                        _call(acc, o, A[k], B[k], tol, sym, '%s input#%d' % (ctx0, k),
+                              'ip' if k == 1 else 'oop')
     par = ''.join(('o' if shape[a] % 2 else 'e') + ('S' if s else 'n')
                   for a, s in zip(axes, shifts))
     return acc.result('ft:%s:%s:%s:%s:%s:%s' % (impl, 'r' if _is_real(dt) else 'c', int(hc), sign,
                                                 par, tmp))
+
+
+def _run_grid(cfg):
+    """reciprocal_grid as documented, and realspace_grid as its inverse.
+
+    Docstring of realspace_grid: "Given a reciprocal grid xi[j] = xi[0] + j * sigma ... this
+    function calculates the original grid x[k] = x[0] + k * s by using a provided x[0] and
+    calculating the stride s", s = 2*pi / (sigma * N), N[i] = 2 * M[i] - 1 (odd) or
+    2 * M[i] - 2 (even) in the halved axis.
+    """
+    acc = Acc()
+    shape, axes = tuple(cfg['shape']), list(cfg['axes'])
+    shifts, hc, form = [bool(t) for t in cfg['shift']], bool(cfg['hc']), cfg['form']
+    nd = len(shape)
+    site = 'reciprocal_grid/realspace_grid[%s]' % ('halfcomplex' if hc else 'full')
+    ctx0 = 'grid=uniform_discr(%s,%s,%s).grid axes=%s shift=%s halfcomplex=%s args=%s' % (
+        list(LO[:nd]), list(HI[:nd]), list(shape), axes, shifts, hc, form)
+    grid = odl.uniform_discr(list(LO[:nd]), list(HI[:nd]), shape).grid
+    # the same request written with the documented argument forms
+    #   axes : "int or sequence of ints ... None means all axes"
+    #   shift : "bool or sequence of bools"
+    if form == 'scalar':
+        ax_arg = None if len(axes) == nd else axes[0]
+        sh_arg = shifts[0]
+    elif form == 'tuple':
+        ax_arg, sh_arg = tuple(axes), tuple(shifts)
+    else:
+        ax_arg, sh_arg = axes, shifts
+    try:
+        rg = ft_utils.reciprocal_grid(grid, shift=sh_arg, axes=ax_arg, halfcomplex=hc)
+        acc.evals += 1
+    except Exception as e:
+        acc.add(site, 'raises:' + type(e).__name__, 'reciprocal_grid %s: %s' % (ctx0, _exc(e)))
+        return acc.result('grid:raise')
+    want_shape = list(shape)
+    if hc:
+        want_shape[axes[-1]] = shape[axes[-1]] // 2 + 1
+    if list(rg.shape) != want_shape:
+        acc.add(site, 'reciprocal_grid_differs', '%s: shape %s, documented %s'
+                % (ctx0, list(rg.shape), want_shape))
+        return acc.result('grid:shape')
+    for ax in range(nd):
+        got = np.asarray(rg.coord_vectors[ax])
+        if ax in axes:
+            i = axes.index(ax)
+            s_ = (HI[ax] - LO[ax]) / shape[ax]
+            want = R.recip_nodes(shape[ax], s_, shifts[i], hc and i == len(axes) - 1)
+        else:
+            want = np.asarray(grid.coord_vectors[ax])
+        if _differs(got, want, 1e-12):
+            acc.add(site, 'reciprocal_grid_differs', '%s axis %d: documented %s got %s'
+                    % (ctx0, ax, _fmt(want), _fmt(got)))
+    par = 'odd' if shape[axes[-1]] % 2 else 'even'
+    kw = {'halfcomplex': True, 'halfcx_parity': par} if hc else {}
+    x0_arg = {'scalar': list(grid.min_pt), 'tuple': tuple(grid.min_pt)}.get(form, grid.min_pt)
+    try:
+        back = ft_utils.realspace_grid(rg, x0_arg, axes=ax_arg, **kw)
+        acc.evals += 1
+    except Exception as e:
+        acc.add(site, 'raises:' + type(e).__name__, 'realspace_grid %s: %s' % (ctx0, _exc(e)))
+        return acc.result('grid:raise')
+    if list(back.shape) != list(shape):
+        acc.add(site, 'realspace_grid_does_not_invert', '%s: shape %s instead of %s'
+                % (ctx0, list(back.shape), list(shape)))
+    else:
+        for ax in range(nd):
+            got = np.asarray(back.coord_vectors[ax])
+            want = np.asarray(grid.coord_vectors[ax])
+            if _differs(got, want, 1e-12):
+                acc.add(site, 'realspace_grid_does_not_invert', '%s axis %d: original nodes %s, '
+                        'got %s' % (ctx0, ax, _fmt(want), _fmt(got)))
+    pat = ''.join(('o' if shape[a] % 2 else 'e') + ('S' if t else 'n')
+                  for a, t in zip(axes, shifts))
+    return acc.result('grid:%d:%s:%s:%s' % (nd, int(hc), pat, form))
 
 
 def _run_gauss(cfg):
@@ -586,24 +749,69 @@ def _diag_weights(space):
     return w
 
 
+WT_FORMS = ('wobj', 'axes-none', 'axes-int', 'axes-neg', 'inv-ctor', 'inv-inv')
+
+
+def _wt_build(sp, cfg):
+    """The forward / inverse pair of one state, reached through the entry point ``cfg['form']``.
+
+    plain      WaveletTransform(sp, <name>, axes=<list>) and its ``.inverse``
+    wobj       the wavelet given as a ``pywt.Wavelet`` ("wavelet : string or `pywt.Wavelet`")
+    axes-none  ``axes=None`` ("The default value of ``None`` corresponds to all axes")
+    axes-int   a single axis given as a plain int (handled by the constructor: np.isscalar(axes))
+    axes-neg   axes counted from the end, NumPy / PyWavelets style (odl's own tests use axes=-1)
+    inv-ctor   the inverse built by its own constructor ``WaveletTransformInverse(range=sp, ...)``
+    inv-inv    the derived objects ``W.inverse.inverse`` (forward) and ``W.inverse.inverse.inverse``
+    """
+    form = cfg.get('form', 'plain')
+    axes = list(cfg['axes'])
+    wname, nl, mode = cfg['wavelet'], cfg['nlevels'], cfg['pad_mode']
+    wav = pywt.Wavelet(wname) if form == 'wobj' else wname
+    if form == 'axes-none':
+        ax = None
+    elif form == 'axes-int':
+        ax = int(axes[0])
+    elif form == 'axes-neg':
+        ax = [a - sp.ndim for a in axes]
+    else:
+        ax = axes
+    if form == 'inv-ctor':
+        W = WaveletTransform(sp, wav, nlevels=nl, pad_mode=mode, axes=ax)
+        Wi = WaveletTransformInverse(sp, wav, nlevels=nl, pad_mode=mode, axes=ax)
+    elif form == 'inv-inv':
+        W = WaveletTransform(sp, wav, nlevels=nl, pad_mode=mode, axes=ax).inverse.inverse
+        Wi = W.inverse
+    else:
+        W = WaveletTransform(sp, wav, nlevels=nl, pad_mode=mode, axes=ax)
+        Wi = W.inverse
+    return W, Wi
+
+
 def _run_wt(cfg):
     acc = Acc()
     shape, axes, dt = tuple(cfg['shape']), list(cfg['axes']), cfg['dtype']
     wname, nl, mode = cfg['wavelet'], cfg['nlevels'], cfg['pad_mode']
+    form = cfg.get('form', 'plain')
     fam = _family(wname)
     tol = TOL_WT[_prec(dt)]
+    cplx = not _is_real(dt)
     site = 'WaveletTransform[%s,%s]' % (fam, mode)
-    ctx0 = 'wavelet=%s nlevels=%s pad_mode=%s shape=%s axes=%s dtype=%s' % (
-        wname, nl, mode, list(shape), axes, dt)
+    ctx0 = 'wavelet=%s nlevels=%s pad_mode=%s shape=%s axes=%s dtype=%s%s' % (
+        wname, nl, mode, list(shape), axes, dt, '' if form == 'plain' else ' entry=' + form)
     nd = len(shape)
     sp = odl.uniform_discr([0.0] * nd, [2.0] * nd, shape, dtype=dt)     # cell volume != 1
     with warnings.catch_warnings():
         warnings.simplefilter('ignore')
         try:
-            W = WaveletTransform(sp, wname, nlevels=nl, pad_mode=mode, axes=axes)
-            Wi = W.inverse
+            W, Wi = _wt_build(sp, cfg)
         except Exception as e:
             acc.add(site, 'raises:' + type(e).__name__, 'constructor %s: %s' % (ctx0, _exc(e)))
+            return acc.result('wt:build')
+        if not (isinstance(W, WaveletTransform) and isinstance(Wi, WaveletTransformInverse)
+                and W.domain == sp and Wi.range == sp and Wi.domain == W.range):
+            # docstrings: "inverse : `WaveletTransformInverse`" / "inverse : `WaveletTransform`"
+            acc.add(site, 'derived_operator_has_other_type_or_spaces',
+                    '%s: forward %r, inverse %r' % (ctx0, W, Wi))
             return acc.result('wt:build')
         n = int(sp.size)
         nc = int(W.range.size)
@@ -614,36 +822,56 @@ def _run_wt(cfg):
         # clauses are counted as unspecified; odl must still add nothing to the back-end error.
         approx_only = fam == 'dmey'
         E = R.basis_stack(shape, dt)
-        M = np.zeros((nc, n))
+        M = np.zeros((nc, n), dtype=dt)
         ok = True
-        for k in range(n):
-            x = sp.element(np.array(E[k], copy=True))
-            try:
+
+        def roundtrip(xa, what, out):
+            """W then W.inverse on one input (out-of-place or with out=); returns coeffs."""
+            x = sp.element(np.array(xa, copy=True))
+            if out:
+                c = W.range.element()           # NaN-filled by mc.poison
+                r_el = sp.element()
+                if W(x, out=c) is not c or Wi(c, out=r_el) is not r_el:
+                    acc.add(site, 'returned_object_is_not_out', '%s %s' % (ctx0, what))
+                r = np.array(r_el.asarray(), copy=True)
+            else:
                 c = W(x)
-                M[:, k] = c.asarray()
                 r = np.array(Wi(c).asarray(), copy=True)
-            except Exception as e:
-                acc.add(site, 'raises:' + type(e).__name__, '%s unit vector %d: %s'
-                        % (ctx0, k, _exc(e)))
-                ok = False
-                break
             acc.evals += 1
-            if not np.array_equal(x.asarray(), E[k]):
-                acc.add(site, 'input_modified', '%s unit vector %d' % (ctx0, k))
+            if not np.array_equal(x.asarray(), xa):
+                acc.add(site, 'input_modified', '%s %s' % (ctx0, what))
             if r.dtype != np.dtype(dt):
                 acc.add(site, 'result_dtype_differs', '%s: %s' % (ctx0, r.dtype))
             if approx_only:
                 acc.skipped += 1
-                cs = pywt.wavedecn(E[k], wname, mode=W.pywt_pad_mode, level=levels,
+                cs = pywt.wavedecn(xa, wname, mode=PAD_MODES_ODL2PYWT[mode], level=levels,
                                    axes=tuple(axes))
-                rr = pywt.waverecn(cs, wname, mode=W.pywt_pad_mode, axes=tuple(axes))
+                rr = pywt.waverecn(cs, wname, mode=PAD_MODES_ODL2PYWT[mode], axes=tuple(axes))
                 rr = rr[tuple(slice(0, m) for m in shape)]
                 if not np.array_equal(rr, r):
-                    acc.add(site, 'differs_from_backend_roundtrip', '%s unit vector %d' % (ctx0, k))
-            elif _differs(r, E[k], tol):
+                    acc.add(site, 'differs_from_backend_roundtrip', '%s %s' % (ctx0, what))
+            elif _differs(r, xa, tol):
                 acc.add(site, 'reconstruction_differs',
-                        '%s: W.inverse(W(e_%d)) = %s (max dev %.3g, tol %g)'
-                        % (ctx0, k, _fmt(r), float(np.abs(r - E[k]).max()), tol))
+                        '%s: W.inverse(W(x)) for x = %s is %s (shape %s, max dev %.3g, tol %g)'
+                        % (ctx0, what, _fmt(r), list(r.shape),
+                           float(np.abs(r - xa).max()) if r.shape == xa.shape else np.inf, tol))
+            return np.array(c.asarray(), copy=True)
+
+        try:
+            for k in range(n):
+                M[:, k] = roundtrip(E[k], 'unit vector %d' % k, False)
+                if cplx:
+                    roundtrip(1j * E[k], 'i * unit vector %d' % k, False)
+            # one dense vector, out-of-place and with out= (both operators)
+            dense = (np.arange(n, dtype=float) % 5 - 1.5).reshape(shape)
+            if cplx:
+                dense = dense + 0.5j * dense[::-1]
+            dense = dense.astype(dt)
+            for out in (False, True):
+                roundtrip(dense, 'the dense vector%s' % (' (out=)' if out else ''), out)
+        except Exception as e:
+            acc.add(site, 'raises:' + type(e).__name__, '%s: %s' % (ctx0, _exc(e)))
+            ok = False
         divisible = all(shape[a] % (2 ** levels) == 0 for a in axes)
         did_adj = False
         if ok and W.is_orthogonal and mode == 'pywt_periodic' and divisible:
@@ -652,10 +880,10 @@ def _run_wt(cfg):
             else:
                 did_adj = True
                 _wt_adjoint(acc, site, ctx0, sp, W, Wi, M, tol)
-    crop = any(shape[a] % 2 for a in axes)
-    return acc.result('wt:%s:%s:L%s:%s:%s:%s' % (fam, mode, levels, 'crop' if crop else 'even',
-                                                 'redundant' if nc > n else 'crit',
-                                                 'adj' if did_adj else 'noadj'))
+    par = ''.join('o' if shape[a] % 2 else 'e' for a in axes)
+    return acc.result('wt:%s:%s:L%s:%s:%s:%s:%s:%s' % (
+        fam, mode, levels, par, 'redundant' if nc > n else 'crit',
+        'adj' if did_adj else 'noadj', form, 'c' if cplx else 'r'))
 
 
 def _wt_adjoint(acc, site, ctx0, sp, W, Wi, M, tol):
@@ -669,9 +897,9 @@ def _wt_adjoint(acc, site, ctx0, sp, W, Wi, M, tol):
     except Exception as e:
         acc.add(site, 'raises:' + type(e).__name__, '.adjoint %s: %s' % (ctx0, _exc(e)))
         return
-    A = np.zeros((n, nc))
-    Mi = np.zeros((n, nc))
-    B = np.zeros((nc, n))
+    A = np.zeros((n, nc), dtype=sp.dtype)
+    Mi = np.zeros((n, nc), dtype=sp.dtype)
+    B = np.zeros((nc, n), dtype=sp.dtype)
     try:
         for j in range(nc):
             c = np.zeros(nc, dtype=sp.dtype)
@@ -687,18 +915,18 @@ def _wt_adjoint(acc, site, ctx0, sp, W, Wi, M, tol):
     except Exception as e:
         acc.add(site, 'raises:' + type(e).__name__, 'adjoint call %s: %s' % (ctx0, _exc(e)))
         return
-    wantA = (M.T * wr[None, :]) / wd[:, None]
+    wantA = (M.conj().T * wr[None, :]) / wd[:, None]
     if _differs(A, wantA, tol):
         i, j = np.unravel_index(np.abs(A - wantA).argmax(), A.shape)
         acc.add(site, 'adjoint_not_transpose',
-                '%s: W.adjoint matrix entry (%d,%d) = %.6g, <W e_i, c_j>/<e_i,e_i> gives %.6g'
-                % (ctx0, i, j, A[i, j], wantA[i, j]))
-    wantB = (Mi.T * wd[None, :]) / wr[:, None]
+                '%s: W.adjoint matrix entry (%d,%d) = %s, <W e_i, c_j>/<e_i,e_i> gives %s'
+                % (ctx0, i, j, _fmt(A[i, j]), _fmt(wantA[i, j])))
+    wantB = (Mi.conj().T * wd[None, :]) / wr[:, None]
     if _differs(B, wantB, tol):
         i, j = np.unravel_index(np.abs(B - wantB).argmax(), B.shape)
         acc.add(site, 'inverse_adjoint_not_transpose',
-                '%s: W.inverse.adjoint matrix entry (%d,%d) = %.6g, weighted transpose gives %.6g'
-                % (ctx0, i, j, B[i, j], wantB[i, j]))
+                '%s: W.inverse.adjoint matrix entry (%d,%d) = %s, weighted transpose gives %s'
+                % (ctx0, i, j, _fmt(B[i, j]), _fmt(wantB[i, j])))
 
 
 # ------------------------------------------------------------------------------------------
@@ -829,6 +1057,27 @@ def _cfg_ft(tier):
     return cfgs
 
 
+def _cfg_grid(tier):
+    """reciprocal_grid / realspace_grid called directly: every shape x axes subset x per-axis
+    shift x halfcomplex (the function documents halfcomplex for shifted and unshifted last
+    axes alike), each in the documented argument forms."""
+    thorough = tier == 'thorough'
+    cfgs = []
+    shapes = list(_shapes((1, 2), SIZES))
+    shapes += list(_shapes((3,), SIZES if thorough else (2, 3))) + ([] if thorough else list(MIXED3))
+    for shape in shapes:
+        for axes in _subsets(len(shape)):
+            for shifts in itertools.product((1, 0), repeat=len(axes)):
+                for hc in (0, 1):
+                    forms = ['list', 'tuple']
+                    if len(set(shifts)) == 1 and len(axes) in (1, len(shape)):
+                        forms.append('scalar')
+                    for form in forms:
+                        cfgs.append({'kind': 'grid', 'shape': shape, 'axes': axes,
+                                     'shift': list(shifts), 'hc': hc, 'form': form})
+    return cfgs
+
+
 def _cfg_gauss(tier):
     thorough = tier == 'thorough'
     impls = ['numpy'] + (['pyfftw'] if HAVE_FFTW else [])
@@ -853,6 +1102,28 @@ QUICK_WAVELETS = ('haar', 'db2', 'db7', 'db38', 'sym2', 'sym9', 'sym20', 'coif1'
                   'rbio6.8', 'dmey')
 
 
+# entry points other than the plain one: wavelets with a short / a long / a biorthogonal filter
+FORM_WAVELETS = ('haar', 'db2', 'bior2.2', 'coif1')
+# 3-d: the wavelets whose transforms of these tiny shapes stay below the coefficient cap anyway
+WAVELETS_3D = ('haar', 'db2', 'sym2', 'coif1', 'bior1.3', 'bior2.2', 'rbio3.1')
+# every parity pattern of the transformed axes (the inverse trims one sample PER odd axis):
+# 2-d  ee eo oe oo;  3-d  through the axes subsets of these shapes every pattern of length 2 and
+# 3 occurs with odd axes in every position
+SHAPES_2D = ([4, 8], [6, 5], [5, 6], [5, 7])
+SHAPES_3D = {'quick': ([3, 4, 5], [4, 5, 3], [5, 3, 3]),
+             'thorough': ([4, 4, 4], [3, 4, 5], [4, 5, 3], [5, 3, 4], [5, 3, 3], [3, 5, 3],
+                          [3, 3, 5], [4, 4, 3])}
+
+
+def _wt_forms(shape, axes):
+    fs = ['wobj', 'axes-neg', 'inv-ctor', 'inv-inv']
+    if len(axes) == len(shape):
+        fs.append('axes-none')
+    if len(axes) == 1:
+        fs.append('axes-int')
+    return fs
+
+
 def _cfg_wt(tier):
     if not HAVE_PYWT:
         return []
@@ -860,35 +1131,62 @@ def _cfg_wt(tier):
     cap = COEFF_CAP[tier]
     every = sorted(pywt.wavelist(kind='discrete'), key=lambda w: (pywt.Wavelet(w).dec_len, w))
     some = [w for w in every if w in QUICK_WAVELETS]         # simplest (shortest filter) first
+    shapes = [[8], [9], [12]] + ([[16]] if thorough else []) + [list(t) for t in SHAPES_2D]
     if thorough:
-        shapes = [[8], [9], [12], [16], [8, 8], [6, 10], [5, 6], [4, 4, 4], [3, 4, 5]]
-    else:
-        shapes = [[8], [9], [12], [4, 8], [5, 6]]
+        shapes += [[8, 8], [6, 10]]
+    shapes += [list(t) for t in SHAPES_3D[tier]]
     cfgs = []
+
+    def emit(shape, axes, w, nl, mode, dt, form=None):
+        if _coeff_size(tuple(shape), w, mode, nl, tuple(axes)) > cap:
+            return                  # bound on the size of the coefficient space
+        c = {'kind': 'wt', 'wavelet': w, 'nlevels': nl, 'pad_mode': mode, 'shape': shape,
+             'axes': axes, 'dtype': dt}
+        if form:
+            c['form'] = form
+        cfgs.append(c)
+
     for shape in shapes:
-        for axes in _subsets(len(shape)):
-            # every wavelet on all axes; the short list on proper axes subsets
-            wl = every if (thorough and len(axes) == len(shape)) else some
+        nd = len(shape)
+        for axes in _subsets(nd):
+            # every wavelet on all axes; the short list on proper axes subsets and in 3-d
+            if nd == 3 and not (thorough and shape == [4, 4, 4]):
+                wl = [w for w in some if w in WAVELETS_3D]
+            else:
+                wl = every if (thorough and len(axes) == nd) else some
             for w in wl:
                 for nl in (1, 2, None):
                     for mode in PAD_MODES:
-                        if _coeff_size(tuple(shape), w, mode, nl, tuple(axes)) > cap:
-                            continue        # bound on the size of the coefficient space
                         dts = ['float64']
-                        if shape in ([8], [9], [5, 6]) or (thorough and len(shape) == 1):
+                        if shape in ([8], [9], [5, 6], [5, 7]) or (thorough and nd == 1):
                             dts.append('float32')
+                        if shape in ([9], [5, 6]) or (thorough and shape in ([8], [5, 7])):
+                            # complex spaces: same transform on real and imaginary part
+                            dts.append('complex128')
+                            if w in FORM_WAVELETS:
+                                dts.append('complex64')
                         for dt in dts:
-                            cfgs.append({'kind': 'wt', 'wavelet': w, 'nlevels': nl,
-                                         'pad_mode': mode, 'shape': shape, 'axes': axes,
-                                         'dtype': dt})
+                            emit(shape, axes, w, nl, mode, dt)
+    # the same operators reached through the other documented entry points
+    for shape in shapes:
+        if len(shape) == 3 and shape != [3, 4, 5] and not thorough:
+            continue
+        for axes in _subsets(len(shape)):
+            for form in _wt_forms(shape, axes):
+                for w in (some if thorough else FORM_WAVELETS):
+                    for nl in (1, None):
+                        for mode in PAD_MODES:
+                            emit(shape, axes, w, nl, mode, 'float64', form)
     return cfgs
 
 
 def configs(tier):
-    return _cfg_dft(tier) + _cfg_hist(tier) + _cfg_ft(tier) + _cfg_gauss(tier) + _cfg_wt(tier)
+    return (_cfg_grid(tier) + _cfg_dft(tier) + _cfg_hist(tier) + _cfg_ft(tier) + _cfg_gauss(tier)
+            + _cfg_wt(tier))
 
 
-RUNNERS = {'dft': _run_dft, 'hist': _run_hist, 'ft': _run_ft, 'gauss': _run_gauss, 'wt': _run_wt}
+RUNNERS = {'grid': _run_grid, 'dft': _run_dft, 'hist': _run_hist, 'ft': _run_ft,
+           'gauss': _run_gauss, 'wt': _run_wt}
 
 
 def run(cfg):
@@ -902,7 +1200,7 @@ def run(cfg):
 
 
 def trace_functions():
-    fs = [ft_utils.reciprocal_grid, ft_utils.dft_preprocess_data, ft_utils.dft_postprocess_data,
+    fs = [ft_utils.reciprocal_grid, ft_utils.realspace_grid, ft_utils.dft_preprocess_data, ft_utils.dft_postprocess_data,
           ft_utils._interp_kernel_ft, pyfftw_bindings.pyfftw_call,
           pyfftw_bindings._pyfftw_destroys_input,
           DiscreteFourierTransform._call_numpy, DiscreteFourierTransform._call_pyfftw,
